@@ -132,6 +132,9 @@ class MPSConfig(EmulationConfig):
         ), f"autosave_dt must be larger than {MIN_AUTOSAVE_DT} seconds"
 
         MIN_KRYLOV_TOL = 1.0e-12  # keep numerical stability
+        # the effective options: a (deprecated) backend_options dict overrides the keyword arguments
+        precision = self.precision
+        extra_krylov_tolerance = self.extra_krylov_tolerance
         prod_tol = precision * extra_krylov_tolerance
         if prod_tol < MIN_KRYLOV_TOL:
             new_extra_krylov_tolerance = MIN_KRYLOV_TOL / precision
